@@ -257,6 +257,48 @@ func genC11(tier string, r *Rng, emit func(Case)) {
 		}
 		emitAll("Hist", hist(ops...))
 	}
+	// long histories: many separate ranges stored at once (lengths around the powers of two, where a builder
+	// that compacts, grows or switches representation would do so), in descending, ascending-then-back and
+	// scattered order
+	nl := 4
+	if tier == "thorough" {
+		nl = 60
+	}
+	for i := 0; i < nl; i++ {
+		for _, k := range []int{31, 33, 63, 64, 65, 66, 127, 129, 200, 257} {
+			var ops []toks
+			shape := (i + k) % 4
+			for j := 0; j < k; j++ {
+				var pos int
+				switch shape {
+				case 0: // isolated positions, high to low
+					pos = 3 * (k - j)
+				case 1: // low to high, the last few out of order
+					pos = 3 * j
+					if j >= k-3 {
+						pos = 3*r.Intn(k) + r.Intn(3)
+					}
+				case 2: // scattered
+					pos = r.Intn(6 * k)
+				default: // high to low in pairs
+					pos = 4*(k-j) + (j%2)*2
+				}
+				if r.Intn(3) == 0 {
+					ops = append(ops, toks{"R", itoa(pos), itoa(pos + r.Range(1, 3))})
+				} else {
+					ops = append(ops, toks{"A", itoa(pos)})
+				}
+				if r.Intn(60) == 0 {
+					ops = append(ops, B)
+				}
+			}
+			ops = append(ops, B)
+			emit(Case{Ver: allVers[(i+k)%3], Op: "Hist", Args: hist(ops...)})
+			if i == 0 {
+				emitAll("Hist", hist(ops...))
+			}
+		}
+	}
 	grid := []int{MinInt, -5, -1, 0, 1, 2, 99, 100, 101, MaxInt - 1, MaxInt}
 	for _, s := range grid {
 		emitAll("UpTo", toks{itoa(s)})
